@@ -205,6 +205,9 @@ def native_open_kinds(ck):
             bad.append('ShmReader::new on %s returns %s, documented: %s' % (name, got[:160], exp))
             if 'panic' in got or not out.startswith('reader='):
                 rp.close(); rp = common.Replay('debug')
+        leaked = dict(x.split('=', 1) for x in out.split() if '=' in x).get('fds_leaked')
+        if leaked not in (None, '0'):
+            bad.append('ShmReader::new on %s (%s): %s file descriptor(s) still open after the attempt was dropped - a client polling for the segment runs out of descriptors' % (name, got[:60], leaked))
     rp.close()
     ck.cov['native_open_kinds'] = {'cases': len(cases), 'bad': len(bad)}
     ck.cov['traces_validated_against_impl'] = ck.cov.get('traces_validated_against_impl', 0) + len(cases)
